@@ -65,14 +65,14 @@ func init() {
 
 func init() {
 	props["C20"] = PropDef{Level: "exploration", QuickS: 40, ThoroughS: 600,
-		Units:    []Unit{{Name: "reader", Pkg: "./props/reader", Sim: "c20", Share: 0.6}, {Name: "reader-asm", Pkg: "./props/reader", Sim: "c20asm", Share: 0.4}},
-		Rule:     "one evaluation = one run inside a testing/synctest bubble: an assembler-side actor delivers a seeded script (0-4 batches of 0-3 Reassembly elements with empty slices, skips, -1 skip, then completion, scribbling over each batch after its call returns) and a consumer actor reads with seeded buffer sizes (0,1,2,3,7,64,1500) and closes at a seeded point (before any read, between or inside batches, after EOF, twice); the controller picks which side moves; non-trivial = a gap, empty slice/batch or early close fired; distinct = distinct event-log fingerprints among non-trivial runs",
+		Units:    []Unit{{Name: "reader", Pkg: "./props/reader", Sim: "c20", Share: 0.45}, {Name: "reader-asm", Pkg: "./props/reader", Sim: "c20asm", Share: 0.3}, {Name: "reader-sweep", Pkg: "./props/reader", Sim: "c20sweep", Share: 0.25}},
+		Rule:     "one evaluation = one run inside a testing/synctest bubble: an assembler-side actor delivers a seeded script (0-4 batches of 0-3 Reassembly elements with empty slices, skips, -1 skip, then completion, scribbling over each batch after its call returns) and a consumer actor reads with seeded buffer sizes (0,1,2,3,7,64,1500) and closes at a seeded point (before any read, between or inside batches, after EOF, twice); the controller picks which side moves; unit reader-sweep fixes one seeded small script (<= 3 batches, elements <= 8 bytes), one read-size sequence over {1,2,64} and one schedule, and then places Close at EVERY consumer step (before the first read, after each read, after EOF), each placement in a fresh bubble; non-trivial = a gap, empty slice/batch or early close fired; distinct = distinct event-log fingerprints among non-trivial runs",
 		RealStub: "real: tcpreader.ReaderStream (Reassembled, ReassemblyComplete, Read, Close, its two channels); unit reader-asm additionally runs the real tcpassembly.Assembler, fed by the C10 network simulation, as the assembler side; stub: assembler side (script, unit reader) and consumer",
 		Assume:   []string{"one consumer goroutine uses the reader (Read and Close are not called concurrently)", "the assembler calls ReassemblyComplete only after its last Reassembled call returned"}}
 }
 
 func init() {
-	props["C12"] = PropDef{Level: "exploration", QuickS: 60, ThoroughS: 900,
+	props["C12"] = PropDef{Level: "exploration", QuickS: 100, ThoroughS: 900,
 		Units: []Unit{
 			{Name: "tcpasm-c12", Pkg: "./props/tcpasm", Sim: "c12t", Share: 0.25},
 			{Name: "reasm-c12", Pkg: "./props/reasm", Sim: "c12r", Share: 0.25},
@@ -99,20 +99,21 @@ func init() {
 }
 
 var probeNames = map[string][]string{
-	"c02":     {},
-	"c04":     {"two_pooled_packets_live"},
-	"c09":     {"stream_crosses_wrap", "wrap_inside_delivery", "flush_forced_skip", "limit_forced_skip", "syn_overtaken_by_data", "gap_announced", "delivery_without_start", "kept_bytes_presented", "multi_page_with_saved"},
-	"c10":     {"stream_crosses_wrap", "wrap_inside_delivery", "flush_forced_skip", "limit_forced_skip", "syn_overtaken_by_data", "gap_announced", "delivery_without_start"},
-	"c11r":    {"flush_forced_skip", "limit_forced_skip"},
-	"c11t":    {"flush_forced_skip", "limit_forced_skip"},
-	"c12t":    {"preempted_runs", "completed_concurrently", "flush_forced_skip", "stream_created_and_discarded"},
-	"c12r":    {"preempted_runs", "completed_concurrently", "flush_forced_skip", "stream_created_and_discarded"},
-	"c13v4":   {"datagram_reassembled", "datagram_with_options_reassembled", "unfragmented_passthrough", "partial_datagram_discarded", "key_collision_mixed", "hostile_set_reassembled", "8000_fragments_reassembled"},
-	"c13v6":   {"ipv6_reassembled"},
-	"c14pcap": {"exhaustive_cut_sweep", "libpcap_read_pcap"},
-	"c14ng":   {"exhaustive_cut_sweep", "libpcap_read_pcapng", "interface_with_timestamp_offset", "interface_added_between_packets", "secrets_block_between_packets", "statistics_block_between_packets"},
-	"c15":     {"short_reads_delivered"},
-	"c16":     {"retry_after_transient_error", "cancel_during_read", "zero_copy_nocopy_refused", "three_or_more_packets", "channel_full_backpressure", "cancelled_and_abandoned", "cancelled_while_blocked_on_full_channel"},
-	"c20":     {"read_to_eof", "closed_early", "closed_between_batches", "closed_inside_a_batch"},
-	"c20asm":  {"read_to_eof", "closed_early", "real_assembler_run"},
+	"c02":      {},
+	"c04":      {"two_pooled_packets_live"},
+	"c09":      {"stream_crosses_wrap", "wrap_inside_delivery", "flush_forced_skip", "limit_forced_skip", "syn_overtaken_by_data", "gap_announced", "delivery_without_start", "kept_bytes_presented", "multi_page_with_saved"},
+	"c10":      {"stream_crosses_wrap", "wrap_inside_delivery", "flush_forced_skip", "limit_forced_skip", "syn_overtaken_by_data", "gap_announced", "delivery_without_start"},
+	"c11r":     {"flush_forced_skip", "limit_forced_skip"},
+	"c11t":     {"flush_forced_skip", "limit_forced_skip"},
+	"c12t":     {"preempted_runs", "completed_concurrently", "flush_forced_skip", "stream_created_and_discarded"},
+	"c12r":     {"preempted_runs", "completed_concurrently", "flush_forced_skip", "stream_created_and_discarded"},
+	"c13v4":    {"datagram_reassembled", "datagram_with_options_reassembled", "unfragmented_passthrough", "partial_datagram_discarded", "key_collision_mixed", "hostile_set_reassembled", "8000_fragments_reassembled"},
+	"c13v6":    {"ipv6_reassembled"},
+	"c14pcap":  {"exhaustive_cut_sweep", "libpcap_read_pcap"},
+	"c14ng":    {"exhaustive_cut_sweep", "libpcap_read_pcapng", "interface_with_timestamp_offset", "interface_added_between_packets", "secrets_block_between_packets", "statistics_block_between_packets"},
+	"c15":      {"short_reads_delivered"},
+	"c16":      {"retry_after_transient_error", "cancel_during_read", "zero_copy_nocopy_refused", "three_or_more_packets", "channel_full_backpressure", "cancelled_and_abandoned", "cancelled_while_blocked_on_full_channel", "concatenated_sources", "channel_requested_twice"},
+	"c20":      {"read_to_eof", "closed_early", "closed_between_batches", "closed_inside_a_batch"},
+	"c20asm":   {"read_to_eof", "closed_early", "real_assembler_run"},
+	"c20sweep": {"close_point_sweep", "closed_early", "closed_between_batches", "closed_inside_a_batch"},
 }
